@@ -28,11 +28,11 @@ def _analyse_sibling(chk, r1, r2, r3, f: FuncInfo, br) -> Dict[str, object]:
         raise AnalysisError(f"{f.qualname}: the temperature series is no longer taken as {DF}['temperature']")
     TS = pc.name("_TS_")
     # ---- R09.1: the temperature frame comes from the instantaneous (mean) branch and is never divided by coverage
-    ok = pc.has("_TF_ = as_freq(_TS_, 'D', series_type='instantaneous', include_coverage=True)")
-    calls = [c for c in calls_in(f.node) if unparse(c.func) == "as_freq"]
-    r1.require(ok and len(calls) == 1, f"{f.key}|as_freq-instantaneous-daily", f.where(calls[0]) if calls else f.where(),
-               f"{f.qualname}: sub-daily temperature must be aggregated with as_freq(..., 'D', series_type='instantaneous', include_coverage=True) (a mean, not a sum)")
-    TF = pc.name("_TF_", "temperature_features")
+    TF = "temperature_features"
+    for st_ in ast.walk(f.node):   # the frame as_freq's result is bound to, whatever it is called
+        if isinstance(st_, ast.Assign) and isinstance(st_.targets[0], ast.Name) and any(isinstance(c_, ast.Call) and unparse(c_.func).split(".")[-1] == "as_freq" for c_ in ast.walk(st_.value)):
+            TF = st_.targets[0].id
+            break
     sites = rescale_sites(chk, f)
     for s, base in sites:
         kinds = frame_kind(chk, f, s, base, br)
@@ -43,7 +43,7 @@ def _analyse_sibling(chk, r1, r2, r3, f: FuncInfo, br) -> Dict[str, object]:
     # ---- R09.3 (a) non-hourly route, by one-row interpretation (rules/tempcoverage_absint.py): as_freq hands back a day of mean T and
     # coverage c; the day keeps T (unscaled) iff c > 0.5, is NaN otherwise, and the missing-data warning is filed iff c <= 0.5
     from rules.tempcoverage_absint import T_MEAN, W_MISSING, outcomes as _cov_outcomes
-    keep_bad, warn_bad, scale_bad, masks_seen = [], [], [], []
+    keep_bad, warn_bad, scale_bad, masks_seen, af_bad = [], [], [], [], []
     for o in _cov_outcomes(chk, f):
         c_ = o["coverage"]
         if "raises" in o or "returns" in o:
@@ -60,54 +60,65 @@ def _analyse_sibling(chk, r1, r2, r3, f: FuncInfo, br) -> Dict[str, object]:
             warn_bad.append(f"coverage {c_:g}: warnings {o['warned']}")
         masks_seen.append((c_, o["value"] is not None, W_MISSING in o["warned"]))
         af = o.get("as_freq")
-        if af is not None and not (af[0] == "D" and dict(af[2]).get("series_type") == "instantaneous" and dict(af[2]).get("include_coverage") is True and not af[1]):
-            scale_bad.append(f"as_freq is called with {af}: sub-daily temperature must be aggregated to 'D' as instantaneous data (a mean) with coverage")
+        if af is None or not (af["freq"] in ("D", "d", "1D") and af["series_type"] == "instantaneous" and af["include_coverage"] is True and af["atomic_freq"] == "1 Min"
+                              and af["data_is_temperature_column"] and af["calls"] == 1):
+            af_bad.append(f"as_freq is called with {af}")
     shape["masks"] = sorted(map(str, masks_seen))
     r3.require(not keep_bad and not warn_bad, f"{f.key}|coverage-masks", f.where(),
                f"{f.qualname}: a day with half or fewer of its readings must be missing and reported (keep iff coverage > 0.5, warn iff coverage <= 0.5); interpreted: {(keep_bad + warn_bad)[:3]}",
                sample={"masks": sorted(map(str, masks_seen))})
     r3.require(not keep_bad, f"{f.key}|blank-low-coverage-days", f.where(),
                f"{f.qualname}: low-coverage days must stay rows holding NaN (value -> temperature_mean); interpreted: {keep_bad[:3]}")
+    r1.require(not af_bad, f"{f.key}|as_freq-instantaneous-daily", f.where(),
+               f"{f.qualname}: sub-daily temperature must be aggregated with as_freq(<temperature column>, 'D', series_type='instantaneous', include_coverage=True) (a mean, not a sum), once; interpreted: {af_bad[:1]}")
     r1.require(not scale_bad, f"{f.key}|mean-not-rescaled", f.where(), f"{f.qualname}: {scale_bad[:2]}")
-    # ---- R09.3 (b) hourly route
-    hourly = [c for c in calls_in(f.node) if unparse(c.func) == "compute_temperature_features"]
-    ok = len(hourly) == 1 and (pc.has(f"_HR_ = compute_temperature_features({MI}, _TS_, data_quality=True)", bind=False)
-                               or pc.has(f"_HR_ = compute_temperature_features(meter_data_index={MI}, temperature_data=_TS_, data_quality=True)", bind=False))
-    r3.require(ok, f"{f.key}|hourly-route", f.where(), f"{f.qualname}: hourly feeds must be grouped onto the meter days by compute_temperature_features(meter_index, temp_series, data_quality=True)")
-    frac_ok = pc.has("_INV_ = _TF_.temperature_not_null / (_TF_.temperature_not_null + _TF_.temperature_null) <= 0.5") or \
-        pc.has("_INV_ = _TF_['temperature_not_null'] / (_TF_['temperature_not_null'] + _TF_['temperature_null']) <= 0.5")
-    inv_st = pc.last if frac_ok else None
-    r3.require(frac_ok, f"{f.key}|hourly-50%-rule", f.where(inv_st) if inv_st is not None else f.where(), f"{f.qualname}: a meter day is invalid iff not_null / (not_null + null) <= 0.5")
-    INV = pc.name("_INV_", "invalid_temperature_rows")
-    # "iff": every further definition / in-place widening of the mask (|=, &=, a second assignment, .loc stores) makes days
-    # with more than half of their readings present come out missing (or the reverse)
-    extra = []
-    for s in cfg.stmts():
-        if s is inv_st:
+    # ---- R09.3 (b) hourly route, by one-row interpretation with a typical row (rules/temphourly_absint.py): compute_temperature_features hands
+    # back a meter day with n present / m absent readings among complete days; the day keeps its mean iff n / (n + m) > 0.5, is a NaN row
+    # otherwise, and the warning is filed iff a day was blanked
+    from rules.temphourly_absint import T_MEAN as TH, W_MISSING as WH, outcomes as _hourly_outcomes
+    kept_low, blank_high, wiring, warn_bad2, altered, dropped, table = [], [], [], [], [], [], []
+    hs = _hourly_outcomes(chk, f)
+    for o in hs:
+        n_, m_ = o["n"], o["m"]
+        tag = f"{n_}/{n_ + m_}"
+        comp_ = o.get("companion")
+        if "raises" in o or "returns" in o:
+            kept_low.append(f"{tag}: {o.get('raises') or o.get('returns')}")
             continue
-        tgt = None
-        if isinstance(s, ast.AugAssign):
-            tgt = s.target
-        elif isinstance(s, ast.Assign):
-            tgt = s.targets[0]
-        elif isinstance(s, ast.AnnAssign):
-            tgt = s.target
-        if tgt is None:
+        want_blank = n_ / (n_ + m_) <= 0.5
+        got_blank = o["value"] is None
+        table.append((tag, "alone" if comp_ is None else "beside a day without readings", not got_blank, WH in o["warned"]))
+        if not o["present"]:
+            dropped.append(tag)
             continue
-        base = tgt
-        while isinstance(base, (ast.Subscript, ast.Attribute)):
-            base = base.value
-        if isinstance(base, ast.Name) and base.id == INV:
-            extra.append(s)
-    for s in extra:
-        r3.require(False, f"{f.key}|hourly-50%-rule:extra-term", f.where(s),
-                   f"{f.qualname}: `{unparse(s)[:110]}` widens/redefines the invalid-day mask beyond not_null / (not_null + null) <= 0.5: a day with more than half of its readings present "
-                   f"(e.g. 12 of the 23 readings of a spring-forward day against a median of 24) is blanked", sample={"function": f.qualname, "statement": unparse(s)[:160]})
-    r3.inst(f"{f.key}|invalid-mask-definitions={1 + len(extra)}")
-    blank = [s for s in cfg.stmts() if isinstance(s, ast.Assign) and isinstance(s.targets[0], ast.Subscript) and unparse(s.value) in ("np.nan", "float('nan')", "numpy.nan")
-             and "temperature_mean" in unparse(s.targets[0])]
-    r3.require(len(blank) == 1 and pc.has("_TF_.loc[_INV_, 'temperature_mean'] = np.nan", bind=False), f"{f.key}|hourly-blank", f.where(),
-               f"{f.qualname}: exactly the invalid meter days (row selector = the invalid-day mask, nothing or-ed/and-ed to it) must have temperature_mean set to NaN")
+        if want_blank and not got_blank and tag not in kept_low:
+            kept_low.append(tag)
+        if got_blank and not want_blank and tag not in blank_high:
+            blank_high.append(tag)
+        if not got_blank and abs(o["value"] - TH) > 1e-9:
+            altered.append(f"{tag}: {o['value']:.4g}")
+        if (WH in o["warned"]) != (got_blank or comp_ is not None):
+            warn_bad2.append(f"{tag}: warnings {o['warned']}, day {'blanked' if got_blank else 'kept'}" + ("" if comp_ is None else ", another day of the frame has no reading at all"))
+        c_ = o["call"]
+        if not (c_.get("calls") == 1 and c_.get("meter_index") and c_.get("temperature") and c_.get("data_quality") is True and not c_.get("extra")):
+            wiring.append(str(c_))
+        if o.get("buffer_left"):
+            wiring.append("the buffer day appended to the meter index is still a row of the result")
+    r3.require(not wiring, f"{f.key}|hourly-route", f.where(),
+               f"{f.qualname}: hourly feeds must be grouped onto the meter days by compute_temperature_features(meter_index, temp_series, data_quality=True) with the library defaults; interpreted: {wiring[:1]}")
+    r3.require(not kept_low, f"{f.key}|hourly-50%-rule", f.where(),
+               f"{f.qualname}: a meter day is missing iff not_null / (not_null + null) <= 0.5; days that keep a temperature with half or fewer of their readings present (present/all): {kept_low[:5]}",
+               sample={"table": [list(t) for t in table]})
+    if blank_high:
+        r3.require(False, f"{f.key}|hourly-50%-rule:blanked-above-half:{','.join(blank_high)}", f.where(),
+                   f"{f.qualname}: days with more than half of their readings present are blanked (present/all readings of the day, among complete 24-reading days): {blank_high} - e.g. "
+                   f"the 23-hour spring-forward day with 12 readings; the invalid-day mask is wider than not_null / (not_null + null) <= 0.5",
+                   sample={"function": f.qualname, "blanked_above_half": blank_high, "table": [list(t) for t in table]})
+    r3.require(not dropped and not altered, f"{f.key}|hourly-blank", f.where(),
+               f"{f.qualname}: exactly the invalid meter days must have temperature_mean set to NaN, every day stays a row and a kept day keeps the mean it was given; interpreted: dropped {dropped[:3]}, altered {altered[:3]}")
+    r3.require(not warn_bad2, f"{f.key}|hourly-warning", f.where(),
+               f"{f.qualname}: the missing-temperature warning is filed iff a meter day was blanked; interpreted: {warn_bad2[:3]}")
+    r3.inst(f"{f.key}|hourly-outcomes[{len(hs)}]", {"table": [list(t) for t in table]})
     # ---- R09.2 frequency-kind typing of the count columns on the non-hourly route
     for s in cfg.stmts():
         if isinstance(s, ast.Assign) and isinstance(s.targets[0], ast.Subscript) and unparse(s.targets[0].value) == TF and const_str(s.targets[0].slice) in ("temperature_null", "temperature_not_null"):
